@@ -441,7 +441,7 @@ def _strip_ptr(t):
     return t
 
 
-def encoder_reads(facts, root, enum_adt, follow=('datafusion_proto::', 'datafusion_proto_common::', '<datafusion_proto', '<datafusion_proto_common')):
+def encoder_reads(facts, root, enum_adt, follow=('datafusion_proto::', 'datafusion_proto_common::', '<datafusion_proto', '<datafusion_proto_common'), follow_derived=False):
     """-> (struct-level reads {struct: {field}}, per-variant reads {variant: {(owner, field-or-index)}}, functions visited)"""
     import collections
     names = set(v['name'] for v in facts.adts[enum_adt]['variants'])
@@ -465,7 +465,11 @@ def encoder_reads(facts, root, enum_adt, follow=('datafusion_proto::', 'datafusi
                 depth[k] = depth[d]
         if depth[d] < 3:
             for c in facts.callees.get(d, ()):
-                own_method = any(c.startswith(p + '::') or c.startswith('<' + p + ' as ') for p in payloads if '::' in p)
+                # methods of the payload structs the encoder calls (accessors).  Derived / std trait impls (`<S as Clone>::clone`, PartialEq, Hash,
+                # Debug ..) touch every field by construction and say nothing about what is encoded: not followed (a clone's fields are
+                # still attributed to S wherever the copy is read afterwards)
+                own_method = any(c.startswith(p + '::') or (c.startswith('<' + p + ' as ') and (follow_derived or not c.startswith(('<' + p + ' as core::', '<' + p + ' as std::', '<' + p + ' as alloc::'))))
+                                 for p in payloads if '::' in p)
                 if (c.startswith(follow) or own_method or (' as core::convert::From<' in c and 'datafusion' in c)) and c in facts.fn_index and c not in seen:
                     todo.append(c)
                     # helper layers inside the proto crates cost nothing (extracting an arm into a helper must not hide what it reads);
@@ -498,13 +502,13 @@ def encoder_reads(facts, root, enum_adt, follow=('datafusion_proto::', 'datafusi
     return anyread, vread, seen
 
 
-def check_encoder_reads(ctx, label, root, enum_adt, rule='encoder-reads-every-field', exempt=None, min_structs=0, follow=None, per_variant=True, facts=None, what='wire'):
+def check_encoder_reads(ctx, label, root, enum_adt, rule='encoder-reads-every-field', exempt=None, min_structs=0, follow=None, per_variant=True, facts=None, what='wire', follow_derived=False):
     facts = facts or ctx.facts
     exempt = SRC_EXEMPT if exempt is None else exempt
     if facts.fn(root) is None or enum_adt not in facts.adts:
         ctx.lost(rule, root)
         return 0
-    anyread, vread, seen = encoder_reads(facts, root, enum_adt, follow) if follow else encoder_reads(facts, root, enum_adt)
+    anyread, vread, seen = encoder_reads(facts, root, enum_adt, follow, follow_derived=follow_derived) if follow else encoder_reads(facts, root, enum_adt, follow_derived=follow_derived)
     ctx.analysed_fns.update(d for d in seen if '{closure' not in d)
     # payload structs and how many variants share each
     uses = {}
